@@ -9,8 +9,10 @@ import AffVerif.Props.C05
   point that fails `contains` can be repaired) the swept tree has no undecided node.
 * `C06_idempotent` — hence a second run returns the same tree and solves no LP (the oracle state is returned
   untouched), whatever oracles the second run is given.
-* `C06_no_single_branch` — on a total tree whose sibling pairs are both fresh or both cached feasible (every
-  compose / eliminate / compose / eliminate pipeline) no decision below the root is left with a single branch —
+* `C06_no_single_branch` — for *every* behaviour of the solver and of the heuristics (no hypothesis on the oracles at
+  all, since fix D15: a redundant decision is forwarded also when its surviving child stayed undecided): on a total tree
+  whose sibling pairs are both fresh or both cached feasible (every compose / eliminate / compose / eliminate
+  pipeline) no decision below the root is left with a single branch —
   except above a branch that is itself marked infeasible, i.e. when the solver declared both closed half-regions of a
   feasible node empty. That exception cannot occur with an exact solver (the half-spaces cover the region); on the
   implementation it is what "empty by more than the solver's tolerance" allows, and the judge decides it per case
@@ -42,15 +44,15 @@ theorem C06_idempotent {σ σ' : Type} (tol : α) (O : Oracles σ α) (hd : Deci
       ((infeasibleElimination tol O n t s).1, s') :=
   C06_settled_fixpoint tol O' n _ s' (C06_sweep_settles tol O hd n t s)
 
-theorem C06_no_single_branch {σ : Type} (tol : α) (O : Oracles σ α) (hd : Decisive tol O) (n : Nat) (t : PT α) (s : σ)
+theorem C06_no_single_branch {σ : Type} (tol : α) (O : Oracles σ α) (n : Nat) (t : PT α) (s : σ)
     (hu : PT.TotalUniform t) : PKids.NoSingle (infeasibleElimination tol O n t s).1.kids :=
-  (noSingle_elimNode tol O hd n true [] t.val.state t s hu).1
+  (noSingle_elimNode tol O n true [] t.val.state t s hu).1
 
 /-- below the root the same holds one level up: a swept sub-tree is replaced by its only branch -/
-theorem C06_no_single_branch_below {σ : Type} (tol : α) (O : Oracles σ α) (hd : Decisive tol O) (n : Nat)
+theorem C06_no_single_branch_below {σ : Type} (tol : α) (O : Oracles σ α) (n : Nat)
     (path : List (Aff α)) (st : NState α) (t : PT α) (s : σ) (hu : PT.TotalUniform t) :
     PKids.OneInf (elimNode tol O n false path st t s).1.kids :=
-  (noSingle_elimNode tol O hd n false path st t s hu).2 rfl
+  (noSingle_elimNode tol O n false path st t s hu).2 rfl
 
 theorem C06_swept_caches {σ : Type} (tol : α) (O : Oracles σ α) (hd : Decisive tol O) (hlp : InfeasibleSound O.lp)
     (hm : MirrorSound tol O.mirror) (n m : Nat) (t : PT α) (s : σ) (h : CacheOK tol n m t) :
